@@ -168,6 +168,13 @@ end
 /-- every redirect annotation of the tree, one element per annotation -/
 def annotations (t : Tree) : List Redirect := listAnnotations [] t
 
+/-- `FileAt t ds f`: the file `f` sits in the tree `t` below the directories `ds` (outermost
+first; `[]` = directly in the root). -/
+inductive FileAt : List Entry → List String → File → Prop
+  | here {es : List Entry} {f : File} : Entry.file f ∈ es → FileAt es [] f
+  | under {es sub : List Entry} {n : String} {ds : List String} {f : File} :
+      Entry.dir n sub ∈ es → FileAt sub ds f → FileAt es (n :: ds) f
+
 /-! ## What the property says must be ignored -/
 
 /-- a doc-group comment that carries the directive -/
